@@ -26,19 +26,19 @@ TRUSTED = ['harness/k4gen.py: fail-closed translator of get_reverse_adjustments 
            'column.convert is not modelled: the harness passes the converted values (it calls the real convert)',
            'Model/RefIndex.v as for C10']
 ASSUMPTIONS = ['cell values are None, ints, lists of ints or strings',
-               'twoway_symmetric_step assumes pairwise distinct row ids in the action (false without: known finding) and '
+               'twoway_symmetric_step is about the user action (repeated row ids are de-duplicated first, 060dc6b) and '
                'one column of the pair per action (false for both columns of a self pair: known finding)',
-               'pair_ok: exact reverse indexes (C10), row ids in 1..2^31-1, references only between existing rows',
-               'the model trims one column; an action with repeated row ids AND further columns (where '
-               'trim_update_action keeps rows for the other columns) is outside the modelled inputs']
+               'pair_ok: exact reverse indexes (C10), row ids in 1..2^31-1, references only between existing rows']
 TECHNIQUE = ('Coq proof over an executable model whose core function is regenerated from source on every run + '
              'differential correspondence with the running engine (vm_compute) + implementation oracles on histories')
-LEVEL_TEXT = ('Kernel-checked theorems, for all pair states, row lists and values: a successful update or add on either side '
-              'with distinct row ids keeps the pair symmetric (Ref or RefList on either side) and well formed; the UNIQUE '
+LEVEL_TEXT = ('Kernel-checked theorems, for all pair states, row lists and values: a successful user-level update (any row list: repeated ids '
+              'are de-duplicated, last wins) or add of distinct new rows on either side keeps the pair symmetric (Ref or '
+              'RefList on either side) and well formed; the UNIQUE '
               'error is raised exactly when a Ref side would get two referrers, and before anything is modified; '
-              'recalc_from_reverse_values makes any pair symmetric; record removal keeps it symmetric. The three ways '
-              'the unchanged code escapes (repeated row ids, both columns of a self pair in one action, stale index '
-              'after ReplaceTableData) are proved as counterexamples / reported as known findings.')
+              'recalc_from_reverse_values makes any pair symmetric; record removal keeps it symmetric. Repeated row ids '
+              '(repaired by 060dc6b) and the stale index after ReplaceTableData (474dc3f) survive as regression examples '
+              'and witnesses; both columns of a self pair in one action is proved as a counterexample and reported as a '
+              'known finding.')
 LEVEL_NOTE = ('Trusted: Coq kernel, the translator of get_reverse_adjustments, the hand-written glue model (validated '
               'differentially on every run), column.convert as tabulated by the harness. Metadata cascades of '
               'AddReverseColumn/ModifyColumn (reverseCol bookkeeping) are covered by the history oracle only.')
@@ -186,7 +186,7 @@ def both_case(r, e, t, ca, cb, ka, kb, rs):
     if name is None:
       return None
     expected, status = '(Err %s)' % name, name
-  term = '(update_both (hack_of %s) %s %s %s %s %s, %s)' % (hack, GRA, before, k4.natlist(rs), ta_, tb_, expected)
+  term = '(user_update_both (hack_of %s) %s %s %s %s %s, %s)' % (hack, GRA, before, k4.natlist(rs), ta_, tb_, expected)
   return term, '%s on a self-referential %s/%s pair' % (action, ka, kb), status == 'ok', 'both:' + status, action
 
 
@@ -214,8 +214,7 @@ def pair_case(r):
     return both_case(r, e, ta, ca, cb, ka, kb, rs)
   vals = [user_value(r, kind, targets) for _ in rs]
   colvals = {c: vals}
-  if r.random() < 0.25 and len(set(rs)) == len(rs):
-    # (with repeated row ids trim_update_action keeps rows for the sake of the other column: not modelled)
+  if r.random() < 0.25:
     colvals['N'] = [r.choice([0, 1, 2]) for _ in rs]
   action = ['BulkAddRecord' if add else 'BulkUpdateRecord', t, ids, colvals]
   col = e.tables[t].get_column(c)
@@ -240,7 +239,7 @@ def pair_case(r):
     expected = '(Err %s)' % name
     status = name
   fn = ('add_%s (hack_of %s) %s %s' % ('a' if side_a else 'b', hack, GRA, core.boollit(same)) if add
-        else 'update_%s (hack_of %s) %s' % ('a' if side_a else 'b', hack, GRA))
+        else 'user_update_%s (hack_of %s) %s' % ('a' if side_a else 'b', hack, GRA))
   term = '(%s %s %s %s, %s)' % (fn, before, k4.natlist(rs), conv_t, expected)
   dup = len(set(rs)) != len(rs)
   what = '%s on a %s/%s pair (%s), side %s' % (action, ka, kb, 'same table' if same else 'two tables', 'A' if side_a else 'B')
@@ -395,7 +394,7 @@ STREAMS = {
   'both': dict(weights={'addreverse': 9, 'bothsides': 12, 'refupd': 6, 'addref': 9}, undo_prob=0.0),
   'replace': dict(weights={'addreverse': 9, 'replacedata': 7, 'refupd': 10}, undo_prob=0.0),
 }
-KNOWN_KINDS = ('bulk_update_with_repeated_row_id', 'both_sides_in_one_action', 'replace_table_data_breaks_two_way')
+KNOWN_KINDS = ('both_sides_in_one_action', 'replace_table_data_leaves_reverse_references')
 
 
 def dedup_bundle(bundle):
@@ -433,7 +432,7 @@ class Oracle(object):
     self.stats[k] = self.stats.get(k, 0) + 1
 
   def before(self, e, bundle):
-    tok = {'pairs': pairs_of(e), 'cells': ref_snapshot(e)}
+    tok = {'pairs': pairs_of(e), 'cells': ref_snapshot(e), 'rows': {t: set(e.tables[t].row_ids) for t in e.tables}}
     tok['asym'] = {p for p in tok['pairs'] if asymmetry(e, *p)}
     if not self.visible_only:
       k4 = K()
@@ -464,12 +463,27 @@ class Oracle(object):
       return None
     pairs = pairs_of(e)
     self.bump('pairs_checked', ) if pairs else None
+    # ReplaceTableData removes rows without the cleanup of doBulkRemoveRecord (finding C10-replace-table-data-no-cleanup):
+    # the other side of a pair keeps pointing at them, and a later row that re-uses the id is not pointed back from.
+    for (ta, ca, tb, cb) in pairs:
+      for (t1, c1, t2) in ((ta, ca, tb), (tb, cb, ta)):
+        gone = tok['rows'].get(t2, set()) - set(e.tables[t2].row_ids)
+        if gone and any(a[0] == 'ReplaceTableData' and a[1] == t2 for a in bundle):
+          col = e.tables[t1].get_column(c1)
+          for r in e.tables[t1].row_ids:
+            hit = [t for t in col._value_iterable(col.raw_get(r)) if t in gone]
+            if hit:
+              self.issues.append(('replace_table_data_leaves_reverse_references',
+                                  'after %r: %s.%s[%d] still refers to the removed %s row %d of its two-way partner'
+                                  % (bundle, t1, c1, r, t2, hit[0])))
+              return 'stop'
     for p in pairs:
       d = asymmetry(e, *p)
       if not d or p in tok['asym']:
         continue
       ta, ca, tb, cb = p
-      both = any(a[0] in ('BulkUpdateRecord', 'UpdateRecord', 'BulkAddRecord', 'AddRecord') and ta == tb and a[1] == ta
+      both = any(a[0] in ('BulkUpdateRecord', 'UpdateRecord', 'BulkAddRecord', 'AddRecord', 'ReplaceTableData')
+                 and ta == tb and a[1] == ta
                  and ca in (a[3] or {}) and cb in (a[3] or {}) for a in bundle)
       replaced = any(a[0] == 'ReplaceTableData' and a[1] in (ta, tb) for a in bundle)
       if has_repeated_ids(bundle):
@@ -524,14 +538,12 @@ class TieOracle(Oracle):
           ids = list(range(nxt, nxt + len(ids)))
         if not all(type(i) is int and i > 0 for i in ids):
           continue
-        if others and len(set(ids)) != len(ids):
-          continue      # repeated row ids together with other columns: trimming across columns is not modelled
         col = e.tables[t].get_column(named[0])
         try:
           conv = [col.convert(G.objtypes.decode_object(copy.deepcopy(v))) for v in a[3][named[0]]]
           hack = k4.hack_table([v for v in conv if isinstance(v, str)], k4.any_rl_column())
           fn = ('add_%s (hack_of %s) %s %s' % ('a' if side_a else 'b', hack, GRA, core.boollit(ta == tb)) if add
-                else 'update_%s (hack_of %s) %s' % ('a' if side_a else 'b', hack, GRA))
+                else 'user_update_%s (hack_of %s) %s' % ('a' if side_a else 'b', hack, GRA))
           tok['case'] = ((ta, ca, tb, cb), '(%s %s %s %s' % (fn, pair_term(e, ta, ca, tb, cb), k4.natlist(ids),
                                                           core.coq_list([k4.enc_cell(v) for v in conv])))
         except k4.Unrepresentable:
@@ -611,7 +623,22 @@ def shrink(history, kind):
     return history
 
 
+def fixed_corpus(ctx):
+  """Witnesses of repaired defects stay in the corpus and are run first: a regression is a violation again."""
+  for k in core.load_known():
+    if k['property'] == ID and k.get('kind') == 'fixed' and k.get('witness'):
+      try:
+        d = replay(ctx, k['witness'])
+      except Exception as ex:      # pylint: disable=broad-except
+        d = 'replay raised %r' % (ex,)
+      ctx.count(('fixed', k['id']), nontrivial=True, kind='fixed-witness:' + ('fails-again' if d else 'holds'))
+      if d:
+        ctx.violation(k.get('violation_kind') or 'regression',
+                      'repaired by %s, fails again: %s' % (k.get('commit'), d), k['witness'])
+
+
 def search(ctx):
+  fixed_corpus(ctx)
   sizes = {'main': (ctx.n(30, 500), ctx.n(12, 16)), 'dup': (ctx.n(6, 60), 8), 'both': (ctx.n(8, 80), 10),
            'replace': (ctx.n(6, 60), 8)}
   seen = set()
